@@ -18,11 +18,6 @@ def ExcRes (a0 : Arm) (x : FCfg) (r : Res) : Prop :=
     ((e = faultExc ∧ r.1.fired = true ∧ r.1.arm = none ∧ mainHK a0.hk = true) ∨
      (Internal e ∧ ArmOk a0 r.1 ∧ (mainHK a0.hk = true → r.1.fired = x.fired)))
 
-theorem exitState_st (c : Cfg) : (exitState c).st = c.st := by
-  unfold exitState; split
-  · dsimp only; split <;> rfl
-  · rfl
-
 theorem ok_eq_updC_id : (ok : FCfg → Res) = fun x => ok (x.updC id) := rfl
 
 theorem CR.trans' {c : Cfg} {y z : FCfg} {tr : Option Label} (h1 : CR c y tr) (h2 : CR y.l.c z y.l.trans) : CR c z tr :=
@@ -36,14 +31,16 @@ theorem exitOnceF_spec (hN : NK a0 N) (x : FCfg) (h : ArmOk a0 x) (htr : x.l.tra
       (exitOnceF N x).1.arm = none ∧ mainHK a0.hk = true) := by
   -- after the hook passed
   have hrest : ∀ y : FCfg, y.l = x.l → ArmOk a0 y →
-      CR x.l.c ((N .exiting y).updC exitState) x.l.trans ∧ ArmOk a0 ((N .exiting y).updC exitState) ∧
-      (mainHK a0.hk = true → ((N .exiting y).updC exitState).fired = y.fired) := by
+      CR x.l.c ({ (N .exiting y).updC exitState with inState := false } : FCfg) x.l.trans ∧
+      ArmOk a0 ({ (N .exiting y).updC exitState with inState := false } : FCfg) ∧
+      (mainHK a0.hk = true → ({ (N .exiting y).updC exitState with inState := false } : FCfg).fired = y.fired) := by
     intro y hl hy
     obtain ⟨⟨t1, t2, t3⟩, t4, t5⟩ := hN.tq .exiting y (by rw [hl]; exact htr) hy
     rw [hl] at t1 t2 t3
-    exact ⟨⟨Same2.trans t1 (exitState_same2 _), by rw [updC_l, upd_c, exitState_st, t2], by rw [updC_l, upd_trans, t3]⟩,
-      t4.updC _, fun hm => t5 hm⟩
-  have e1 : exitOnceF N x = bind (hookOpt (exitHK x.l.c.st.label) ok x) (fun x => ok ((N .exiting x).updC exitState)) := rfl
+    exact ⟨⟨Same2.trans t1 (exitState_same2 _), by show (exitState (N .exiting y).l.c).st = _; rw [exitState_st, t2],
+      by show (N .exiting y).l.trans = _; rw [t3]⟩, t4, fun hm => t5 hm⟩
+  have e1 : exitOnceF N x = bind (hookOpt (exitHK x.l.c.st.label) ok x)
+      (fun x => ok { (N .exiting x).updC exitState with inState := false }) := rfl
   rw [e1]
   cases hk : exitHK x.l.c.st.label with
   | none =>
@@ -167,15 +164,15 @@ theorem enteringF_spec (hN : NK a0 N) (x : FCfg) (s : SObj) (h : ArmOk a0 x) (ht
         Or.inl ⟨rfl, h2, h3, hmk hhk⟩⟩
     · have hb' := hbase x' hl'
       rcases hcase with ⟨hhk, _, hnf, _, hx'a, hcase⟩ | hcase
-      · rcases hcase with ⟨y, e, hb, _⟩ | ⟨y, y', hb, hy, hu1, hu2, hu3, hfy⟩
+      · rcases hcase with ⟨y, _, e, hb, _⟩ | ⟨y, y', hb, hy, hu1, hu2, hu3, hfy⟩
         · rw [hb'] at hb; cases hb
         · right
           rw [hb'] at hb
           have hyx : y = x'.setC c2 := by cases hb; rfl
           rw [hy]
           exact ⟨faultExc, rfl, by show y'.l.c.closed = false; rw [hu1, hyx, setC_c, g1]; exact hl.2.1,
-            by show y'.l.c.cleanups = 0; rw [hu1, hyx, setC_c, g2]; exact hl.2.2, Or.inl ⟨rfl, hfy, hu3, hmk hhk⟩⟩
-      · rcases hcase with ⟨y, e, hb, _⟩ | ⟨y, y', e, hb, hy, _, hu, hfy, hcalled⟩
+            by show y'.l.c.cleanups = 0; rw [hu1, hyx, setC_c, g2]; exact hl.2.2, Or.inl ⟨rfl, hfy.1, hu3, hmk hhk⟩⟩
+      · rcases hcase with ⟨y, _, e, hb, _⟩ | ⟨y, y', e, hb, hy, _, hu, hfy, hcalled⟩
         · rw [hb'] at hb; cases hb
         · rw [hb'] at hb
           have hyx : y = x'.setC c2 := by cases hb; rfl
@@ -199,12 +196,12 @@ theorem enterNextF_spec (hN : NK a0 N) (x : FCfg) (s : SObj) (h : ArmOk a0 x) (h
     ((enterNextF N x s).2 = none ∧ Inv2w (enterNextF N x s).1.l.c ∧ ArmOk a0 (enterNextF N x s).1 ∧
       (mainHK a0.hk = true → (enterNextF N x s).1.fired = x.fired)) ∨
     ExcRes a0 x (enterNextF N x s) := by
-  have e1 : enterNextF N x s = bind (enteredHooksF N (x.updC fun c => setState (enterState c s) s) s)
+  have e1 : enterNextF N x s = bind (enteredHooksF N { x.updC fun c => setState (enterState c s) s with inState := true } s)
       (fun x => if terminal s.label then terminatedF x else ok x) := rfl
   rw [e1]
-  generalize hx1 : (x.updC fun c => setState (enterState c s) s) = x1
-  have h1 : ArmOk a0 x1 := by rw [← hx1]; exact h.updC _
-  have htr1 : x1.l.trans.isSome = true := by rw [← hx1, updC_l, upd_trans, he.trans]; exact htr
+  generalize hx1 : ({ x.updC fun c => setState (enterState c s) s with inState := true } : FCfg) = x1
+  have h1 : ArmOk a0 x1 := by rw [← hx1]; exact h
+  have htr1 : x1.l.trans.isSome = true := by rw [← hx1]; show (x.l.upd _).trans.isSome = true; rw [upd_trans, he.trans]; exact htr
   have hc1 : x1.l.c = setState (enterState x.l.c s) s := by rw [← hx1]; rfl
   have hf1 : x1.fired = x.fired := by rw [← hx1]; rfl
   obtain ⟨_, _, s3, s4, s5, _⟩ := enterState_same2 x.l.c s
